@@ -205,7 +205,8 @@ def parts(tier):
     out.append(Part('payload-shapes', sc, run_payload, what='every single byte value and the large payload shapes, bytes and bytearray', bound='%d scenarios' % len(sc)))
     sc = []
     auths = [{}, {'_sim': {'auth': {'first': 'token', 'sig': ['token', 'cnxn'], 'pub': 'cnxn'}}, '_keys': [0, 1]},
-             {'_sim': {'auth': {'first': 'token', 'sig': 'token', 'pub': 'cnxn'}}, '_keys': [0]}]
+             {'_sim': {'auth': {'first': 'token', 'sig': 'token', 'pub': 'cnxn'}}, '_keys': [0]},
+             {'_sim': {'auth': {'first': 'token', 'sig': 'token', 'pub': 'cnxn'}}, '_keys': [[0, 'nonascii']]}]      # public key text with a non-ASCII comment
     for twin in ('sync', 'async'):
         for start in (0, 2**31 - 2, 2**32 - 3):
             for md in (4096, 1024 * 1024):
@@ -219,10 +220,14 @@ def parts(tier):
            for t in ('sync', 'async') for md in (4096, 1024 * 1024) for con in auths for v in (0x01000001, 0x01000000 + 0xFFFF, 1)]
     out.append(Part('sessions', sc, run_session, {'dev-order': None}, what='whole sessions through the strict parser, id counter at the wrap, remote ids at 32-bit extremes',
                     bound='%d sessions' % len(sc)))
-    out.append(Part('two-devices', [{'twin': 'sync'}], run_two_devices, {'sched': 1, 'wcap': 1, 'dev-order': 0}, split=2, min_outcomes=1,
-                    what='two device objects used from two threads, one over a short-writing transport: all schedules with one preemption x one short write', bound='preemptions <= 1, short writes <= 1'))
-    out.append(Part('two-devices-async', [{'twin': 'async'}], run_two_devices, {'io-order': 2, 'dev-order': 0}, split=2, min_outcomes=1,
-                    what='two device objects used from two asyncio tasks on one loop: every placement of <=2 deviations from the default I/O completion order', bound='io-order deviations <= 2'))
-    out.append(Part('reconnect-race', [{}], run_reconnect_race, {'sched': 2, 'dev-order': 0}, split=2, min_outcomes=1,
-                    what='a thread in the middle of a streaming_shell while another thread calls connect() again: every schedule with <=2 preemptions', bound='preemptions <= 2'))
+    deep = tier == 'thorough'
+    out.append(Part('two-devices', [{'twin': 'sync'}], run_two_devices, {'sched': 2 if deep else 1, 'wcap': 1, 'dev-order': 0}, split=2, min_outcomes=1,
+                    what='two device objects used from two threads, one over a short-writing transport: all schedules with <=%d preemption(s) x one short write' % (2 if deep else 1),
+                    bound='preemptions <= %d, short writes <= 1' % (2 if deep else 1)))
+    out.append(Part('two-devices-async', [{'twin': 'async'}], run_two_devices, {'io-order': 3 if deep else 2, 'dev-order': 0}, split=2, min_outcomes=1,
+                    what='two device objects used from two asyncio tasks on one loop: every placement of <=%d deviations from the default I/O completion order' % (3 if deep else 2),
+                    bound='io-order deviations <= %d' % (3 if deep else 2)))
+    out.append(Part('reconnect-race', [{}], run_reconnect_race, {'sched': 3 if deep else 2, 'dev-order': 0}, split=2, min_outcomes=1,
+                    what='a thread in the middle of a streaming_shell while another thread calls connect() again: every schedule with <=%d preemptions' % (3 if deep else 2),
+                    bound='preemptions <= %d' % (3 if deep else 2)))
     return out
